@@ -124,7 +124,7 @@ func (s *solo) resolveCall(ac *appCall) bool {
 	if ac.resolved {
 		return true
 	}
-	if ac.ans == nil {
+	if ac.answer() == nil {
 		return false
 	}
 	ok := s.await(fmt.Sprintf("answer of call uid=%x (%s)", ac.uid, ac.via), func() bool {
